@@ -57,6 +57,9 @@ def real_kind(dbg):
 
 # ----------------------------------------------------------------------------- pipeline
 
+USER_PANIC = "verif: the user's extern function panics"
+
+
 class Case:
     """one (grammar, input): what the specification expects and what the real parser did"""
     __slots__ = ("fam", "g", "gid", "inp", "exp", "act", "_tree")
@@ -115,6 +118,8 @@ class MachineRun:
         self.cases = []
         self.rejected = {}
         self.real_only = []     # cases beyond the model-checking bound: no expectation, real runs only
+        self.upanic = []        # cases in which a user function panics, as expected: judged by what follows them
+        self.upanic_bad = []    # ... and the caller did not get that panic
         self.by_g = {g.id: g for g in self.grammars}
         if self.real["build_ok"]:
             exp = {(r["g"], tuple(r["inp"])): r for r in self.tlc["replays"]}
@@ -137,7 +142,12 @@ class MachineRun:
                     if self.tlc["rc"] == 0:
                         raise ToolError("no expected outcome for %s %r" % (key[0], key[1][:40]))
                     continue
-                self.cases.append(Case(fam, self.by_g[a["g"]], a["inp"], e, a))
+                c_ = Case(fam, self.by_g[a["g"]], a["inp"], e, a)
+                if e.get("upanic"):
+                    # the specification says: a user function panics here, and the panic reaches the caller
+                    (self.upanic if USER_PANIC in str(a.get("res", {}).get("panic", "")) else self.upanic_bad).append(c_)
+                    continue
+                self.cases.append(c_)
 
     def model_ok(self):
         return self.tlc["rc"] == 0
